@@ -2556,7 +2556,8 @@ def optimise_quantize(op: Operation, arch, nng):
             for val in input_values:
 
                 # Derive quantized value
-                quant_val = (val / ofm.quantization.scale_f32) + ofm.quantization.zero_point
+                # round like the reference kernel (the integer cast below would truncate toward zero)
+                quant_val = round_away_zero(val / ofm.quantization.scale_f32) + ofm.quantization.zero_point
                 clamped_quantized_val = np.clip(quant_val, ofm.quantization.quant_min, ofm.quantization.quant_max)
                 quantized_vals.append(clamped_quantized_val)
 
